@@ -67,6 +67,52 @@ def nra_check(constraints, timeout_ms=120000):
     return r, (s.model() if r == z3.sat else None)
 
 
+def nra_check_isolated(constraints, report, timeout_s=40):
+    """The same query in a forked child with a hard wall-clock limit (z3's own timeout is not reliable inside nlsat and the
+    solver's global state grows over a worker's life).  report: {name: z3 term} evaluated in the model.  Returns ('unsat', None),
+    ('sat', {name: str}) or ('unknown', None)."""
+    import json
+    import os
+    import select
+    import signal
+    rfd, wfd = os.pipe()
+    pid = os.fork()
+    if pid == 0:
+        try:
+            os.close(rfd)
+            r, m = nra_check(constraints, timeout_ms=int(timeout_s * 1000))
+            out = dict(r=str(r))
+            if r == z3.sat:
+                out['vals'] = {k: str(m.eval(v, model_completion=True)) for k, v in report.items()}
+            os.write(wfd, json.dumps(out).encode())
+        finally:
+            os._exit(0)
+    os.close(wfd)
+    data = b''
+    try:
+        ready, _, _ = select.select([rfd], [], [], timeout_s + 5)
+        if ready:
+            while True:
+                chunk = os.read(rfd, 65536)
+                if not chunk:
+                    break
+                data += chunk
+    finally:
+        os.close(rfd)
+        try:
+            os.kill(pid, signal.SIGKILL)
+        except OSError:
+            pass
+        try:
+            os.waitpid(pid, 0)
+        except OSError:
+            pass
+    if not data:
+        return 'unknown', None
+    out = json.loads(data.decode())
+    return out['r'], out.get('vals')
+
+
 def _has_uf(constraints):
     txt = ' '.join(c.sexpr() for c in constraints)
     return '(ln ' in txt or '(exp ' in txt
